@@ -20,6 +20,7 @@ import (
 	"fmt"
 	"strconv"
 	"strings"
+	"unicode/utf16"
 
 	"github.com/XiaoMi/Gaea/util"
 	"github.com/XiaoMi/Gaea/util/hack"
@@ -41,8 +42,14 @@ func NewMycatPartitionModShard(shardNum int) *MycatPartitionModShard {
 
 // FindForKey return result of calculated key
 func (m *MycatPartitionModShard) FindForKey(key interface{}) (int, error) {
-	h := hack.Abs(NumValue(key))
-	return int(h % int64(m.ShardNum)), nil
+	// the absolute value of math.MinInt64 does not fit in an int64, so take it as uint64
+	// (mycat uses BigInteger.abs().mod(count)).
+	h := NumValue(key)
+	abs := uint64(h)
+	if h < 0 {
+		abs = -abs
+	}
+	return int(abs % uint64(m.ShardNum)), nil
 }
 
 const (
@@ -232,26 +239,42 @@ func parseHashSliceValue(str string) (int, error) {
 // FindForKey return MycatPartitionStringShard calculated result
 func (m *MycatPartitionStringShard) FindForKey(key interface{}) (int, error) {
 	keyStr := GetString(key)
+	// mycat (java) counts the length of a string in UTF-16 code units
+	keyLen := javaStringLength(keyStr)
 	var start int
 	if m.hashSliceStart >= 0 {
 		start = m.hashSliceStart
 	} else {
-		start = len(keyStr) + m.hashSliceStart
+		start = keyLen + m.hashSliceStart
 	}
 
 	var end int
 	if m.hashSliceEnd > 0 {
 		end = m.hashSliceEnd
 	} else {
-		end = len(keyStr) + m.hashSliceEnd
+		end = keyLen + m.hashSliceEnd
 	}
 	h := stringHash(keyStr, start, end)
 	return m.segment[int(h)&andValue], nil
 }
 
+// javaStringLength return the length of s in UTF-16 code units, same as String.length() in java
+func javaStringLength(s string) int {
+	n := 0
+	for _, r := range s {
+		if r >= 0x10000 {
+			n += 2
+		} else {
+			n++
+		}
+	}
+	return n
+}
+
 // copied from mycat
+// start and end are positions of UTF-16 code units, same as String.charAt() in java
 func stringHash(s string, start, end int) int64 {
-	input := []rune(s)
+	input := utf16.Encode([]rune(s))
 	if start < 0 {
 		start = 0
 	}
